@@ -16,7 +16,8 @@ RULE = ("every sequence of <= L symbol texts (prefix tree) x every subset of the
         "collections: every multiset of <= 3 strings drawn from all strings of <= 2 symbols; encoder outputs: every "
         "SMILES token string of <= 6 tokens the encoder accepts; non-trivial = distinct token lists")
 ASSUMPTIONS = [
-    "well-formed = bracketed symbols (no '[' ']' '.' inside) separated by at most one dot, no leading/trailing dot",
+    "well-formed = bracketed symbols (no '[' ']' '.' inside), each optionally followed by one dot ('any placement of single "
+    "dots'); a leading dot or doubled dots are outside the language",
     "independent tokeniser: regular expression in mc/oracles/misc.py",
 ]
 
@@ -61,16 +62,18 @@ def worker_init():
 
 
 def dotted(w):
+    """every placement of single dots *after* symbols: between two symbols and after the last one
+    (a leading dot does not follow a symbol and is outside the language)"""
     n = len(w)
     if n == 0:
         yield ""
         return
-    for mask in range(1 << (n - 1)):
-        parts = [w[0]]
-        for i in range(1, n):
-            if mask >> (i - 1) & 1:
-                parts.append(".")
+    for mask in range(1 << n):
+        parts = []
+        for i in range(n):
             parts.append(w[i])
+            if mask >> i & 1:
+                parts.append(".")
         yield "".join(parts)
 
 
